@@ -35,7 +35,7 @@ impl Args {
     }
 }
 
-fn parse_u64(s: &str) -> u64 {
+pub fn parse_u64(s: &str) -> u64 {
     if let Some(h) = s.strip_prefix("0x") {
         u64::from_str_radix(h, 16).expect("hex number")
     } else {
@@ -170,7 +170,10 @@ fn explore(args: &Args) {
 fn main() {
     let args = parse_args();
     match args.cmd.as_str() {
+        "noop" => {}
         "explore" => explore(&args),
+        "kernels" => props::c11::run(&args),
+        "bq" => props::c12::run(&args),
         other => {
             eprintln!("unknown command {other:?}");
             std::process::exit(64);
